@@ -108,14 +108,31 @@ class Atoms:
                     return ('F', True, False)
         return None
 
+    @staticmethod
+    def log_switch(t):
+        """name of a recognised log switch (a module level flag such as
+        LOG_ENABLED, a logger level query): its value is not under the
+        control of the protocol, so the table must hold for both values"""
+        import re
+        if isinstance(t, ast.Name) and re.search(r'LOG|DEBUG|VERBOSE|TRACE',
+                                                 t.id) and t.id.isupper():
+            return t.id
+        if isinstance(t, ast.Call) and isinstance(t.func, ast.Attribute) and \
+                t.func.attr in ('isEnabledFor', 'is_enabled_for') and \
+                'log' in unparse(t.func.value).lower():
+            return unparse(t)
+        return None
+
     def mentions_msg(self, t):
         return any(self._is_msg(n) for n in walk(t)) or any(
             isinstance(n, ast.Name) and n.id == 'from_proxy' for n in walk(t))
 
 
 def extract_table(prog, rep, cw, fwd, pubvar):
-    """{(P, O, M, F): set(outcomes)}; an outcome is a tuple of effects:
-    ('put', O, M, F, topic_ok, msg_ok) | ('error', text) | ('raise',)"""
+    """{(P, O, M, F): set((switches, outcome))}; `switches` is the assignment
+    of the log switches tested on the path ((name, bool), ...), an outcome is
+    a tuple of effects: ('put', O, M, F, topic_ok, msg_ok) | ('error', text) |
+    ('raise',)"""
     params = fwd.params
     if len(params) < 2:
         raise AnalysisError('UNRECOGNISED-IDIOM %s: callback is not '
@@ -129,13 +146,21 @@ def extract_table(prog, rep, cw, fwd, pubvar):
     def transfer(node, edge, st):
         if edge.label == 'exc':
             return st
-        P, O, M, F, eff = st
+        P, O, M, F, eff, sw = st
         a = node.ast
         if node.kind == 'test' and edge.label in ('T', 'F'):
             c = at.classify(a)
             if c is None:
-                if at.mentions_msg(a):
-                    unknown_tests.add(short(a, 60))
+                name = at.log_switch(a)
+                if name is not None:
+                    # universally quantified, but consistent along a path
+                    val = edge.label == 'T'
+                    cur = dict(sw)
+                    if name in cur:
+                        return st if cur[name] == val else None
+                    cur[name] = val
+                    return (P, O, M, F, eff, tuple(sorted(cur.items())))
+                unknown_tests.add(short(a, 60))
                 return st
             atom, pos, needs_key = c
             want = (edge.label == 'T') == pos
@@ -145,7 +170,7 @@ def extract_table(prog, rep, cw, fwd, pubvar):
                         if edge.label == 'T':       # one continuation only
                             return (P, O, M, F, eff + (
                                 ('error', "KeyError: msg['origin'] read on "
-                                 "an untagged message"),))
+                                 "an untagged message"),), sw)
                         return None
                     # msg.get('origin') on an untagged message: None != module
                     return st if want is False else None
@@ -159,7 +184,7 @@ def extract_table(prog, rep, cw, fwd, pubvar):
                     F = want
                 elif atom == 'O':
                     O = want
-                return (P, O, M, F, eff)
+                return (P, O, M, F, eff, sw)
             return st if cur == want else None
         if node.kind != 'stmt' or a is None:
             return st
@@ -240,7 +265,7 @@ def extract_table(prog, rep, cw, fwd, pubvar):
                             'UNRECOGNISED-IDIOM %s: publication through '
                             'something else than the crosswire publisher: %s'
                             % (fwd.where, short(a)))
-        return (P, O, M, F, eff)
+        return (P, O, M, F, eff, sw)
 
     table = {}
     paths = 0
@@ -248,7 +273,7 @@ def extract_table(prog, rep, cw, fwd, pubvar):
         for O in (True, False):
             for F in (True, False):
                 for M in ((True, False) if O else (None,)):
-                    init = (P, O, M, F, ())
+                    init = (P, O, M, F, (), ())
                     ex = Exploration(g, g.entry.id, init, transfer)
                     paths += ex.states
                     outs = set()
@@ -256,7 +281,7 @@ def extract_table(prog, rep, cw, fwd, pubvar):
                         eff = t.state[4]
                         if t.node == g.raise_.id:
                             eff = eff + (('raise',),)
-                        outs.add(eff)
+                        outs.add((t.state[5], eff))
                     table[(P, O, M, F)] = outs
     rep.stat('paths_enumerated', paths)
     return table, sorted(unknown_tests)
@@ -288,34 +313,53 @@ def r16_1(prog, rep, rid='R16.1'):
         what = describe(P, O, M, F)
         key = 'P=%d O=%d M=%s F=%d' % (P, O, {True: '1', False: '0',
                                                None: '-'}[M], F)
-        if len(outs) != 1:
-            raise AnalysisError(
-                'UNRECOGNISED-IDIOM %s: for [%s] the outcome depends on tests '
-                'the extraction cannot interpret (%s): %d different outcomes'
-                % (fwd.where, what, '; '.join(unknown) or 'none seen',
-                   len(outs)))
-        eff = list(outs)[0]
-        puts = [e for e in eff if e[0] == 'put']
-        errs = [e for e in eff if e[0] in ('error', 'raise')]
-        problem = None
-        if errs:
-            problem = 'the callback raises (%s)' % errs[0][-1] \
-                if errs[0][0] == 'error' else 'the callback raises'
-        elif publish and not puts:
-            problem = 'the message is dropped but must be forwarded'
-        elif not publish and puts:
-            problem = 'the message is forwarded but must be dropped'
-        elif len(puts) > 1:
-            problem = 'the message is published %d times' % len(puts)
-        elif puts:
-            _, o, m, f, topic_ok, msg_ok = puts[0]
-            if not topic_ok or not msg_ok:
-                problem = 'it is not the received message on the target ' \
-                          'topic that is published'
-            elif o is not True:
-                problem = 'the message is forwarded without an origin tag'
-            elif P and m is not False or not P and m is not True:
-                problem = 'the message is forwarded with the wrong origin tag'
+        # two paths that agree on every log switch they both test must have
+        # the same outcome; otherwise the outcome depends on a test that is
+        # neither a protocol atom nor a recognised log switch
+        outs_l = sorted(outs, key=repr)
+        for i, (sw1, e1) in enumerate(outs_l):
+            for sw2, e2 in outs_l[i + 1:]:
+                d1, d2 = dict(sw1), dict(sw2)
+                if e1 != e2 and all(d1[k] == d2[k] for k in d1 if k in d2):
+                    raise AnalysisError(
+                        'UNRECOGNISED-IDIOM %s: for [%s] the outcome depends '
+                        'on tests the extraction cannot interpret (%s)'
+                        % (fwd.where, what, '; '.join(unknown) or
+                           'none seen'))
+
+        def judge(eff):
+            puts = [e for e in eff if e[0] == 'put']
+            errs = [e for e in eff if e[0] in ('error', 'raise')]
+            if errs:
+                return 'the callback raises (%s)' % errs[0][-1] \
+                    if errs[0][0] == 'error' else 'the callback raises'
+            if publish and not puts:
+                return 'the message is dropped but must be forwarded'
+            if not publish and puts:
+                return 'the message is forwarded but must be dropped'
+            if len(puts) > 1:
+                return 'the message is published %d times' % len(puts)
+            if puts:
+                _, o, m, f, topic_ok, msg_ok = puts[0]
+                if not topic_ok or not msg_ok:
+                    return 'it is not the received message on the target ' \
+                           'topic that is published'
+                if o is not True:
+                    return 'the message is forwarded without an origin tag'
+                if P and m is not False or not P and m is not True:
+                    return 'the message is forwarded with the wrong origin ' \
+                           'tag'
+            return None
+
+        problem, when = None, ''
+        for sw, eff in outs_l:
+            pr = judge(eff)
+            if pr is not None and problem is None:
+                problem = pr
+                if sw:
+                    when = ' when %s' % ' and '.join(
+                        '%s is %s' % (k, 'true' if v else 'false')
+                        for k, v in sw)
         if P:
             cons = 'a message of this side comes back from the proxy and is ' \
                    'delivered a second time to the side it came from' \
@@ -334,12 +378,13 @@ def r16_1(prog, rep, rid='R16.1'):
                        'where it was published'
         rep.check(problem is None, rid, fwd, '[%s] -> %s' % (
             what, 'publish once' if publish else 'drop'), construct=key,
-            message='%s: for a message with [%s] %s; %s'
-            % (fwd.qual, what, problem, cons), loc=fwd.loc(),
-            history='one message with [%s] arrives at the forwarder: %s'
-            % (what, cons))
-        if not P and puts and len(puts) == 1 and puts[0][3] is not False \
-                and problem is None:
+            message='%s: for a message with [%s]%s %s; %s'
+            % (fwd.qual, what, when, problem, cons), loc=fwd.loc(),
+            history='one message with [%s] arrives at the forwarder%s: %s'
+            % (what, when, cons))
+        good_puts = [e for sw, eff in outs_l for e in eff if e[0] == 'put']
+        if not P and problem is None and \
+                any(e[3] is not False for e in good_puts):
             rep.info(rid, fwd, 'the forward flag is not cleared before the '
                      'message is put on the proxy channel for [%s] '
                      '(defence in depth only: the origin test already stops '
@@ -725,6 +770,15 @@ MUTATIONS = [
         (_S, _TAG, ""),
         (_S, "                # only forward messages which have the respective flag set\n",
              "                if 'origin' not in msg:\n                    msg['origin'] = self._module\n")]),
+    dict(name='R16.1 seed C16-a: own-origin guard moved under the log switch', rules=('R16.1',), edits=[
+        (_S, "                if msg['origin'] == self._module:\n                    if LOG_ENABLED:\n                        self._log.debug_9('XXX >=! fwd %s to topic:%s: %s',\n                                          src, tgt, msg)\n                    return\n\n                if LOG_ENABLED:\n                    self._log.debug_9('XXX >=> fwd %s to topic:%s: %s',\n                                      src, tgt, msg)\n                publisher.put(tgt, msg)\n",
+             "                if LOG_ENABLED:\n                    if msg['origin'] == self._module:\n                        self._log.debug_9('XXX >=! fwd %s to topic:%s: %s',\n                                          src, tgt, msg)\n                        return\n\n                    self._log.debug_9('XXX >=> fwd %s to topic:%s: %s',\n                                      src, tgt, msg)\n                publisher.put(tgt, msg)\n")]),
+    dict(name='R16.1 forward-flag guard only active with logging enabled', rules=('R16.1',), edits=[
+        (_S, "                if not msg.get('fwd'):\n                    if LOG_ENABLED:\n                        self._log.debug_9('XXX =>! fwd %s to %s: %s [%s - %s]',\n                                          src, tgt, msg, msg['origin'],\n                                          self._module)\n                    return\n",
+             "                if LOG_ENABLED and not msg.get('fwd'):\n                    self._log.debug_9('XXX =>! fwd %s to %s: %s [%s - %s]',\n                                      src, tgt, msg, msg['origin'],\n                                      self._module)\n                    return\n")]),
+    dict(name='R16.1 put on the proxy channel skipped while logging is on', rules=('R16.1',), edits=[
+        (_S, "                if LOG_ENABLED:\n                    self._log.debug_3('XXX =>> fwd %s to topic:%s: %s',\n                                      src, tgt, msg)\n                publisher.put(tgt, msg)\n",
+             "                if LOG_ENABLED:\n                    self._log.debug_3('XXX =>> fwd %s to topic:%s: %s',\n                                      src, tgt, msg)\n                else:\n                    publisher.put(tgt, msg)\n")]),
     dict(name='R16.2 state pubsub wired with swapped from_proxy', rules=('R16.2',), edits=[
         (_S, "                              tgt=rpc.PROXY_STATE_PUBSUB,\n                              from_proxy=False)",
              "                              tgt=rpc.PROXY_STATE_PUBSUB,\n                              from_proxy=True)")]),
@@ -778,6 +832,12 @@ SILENT = [
              "                if msg['origin'] != self._module:\n                    return\n\n                if not msg.get('fwd', False):\n                    return\n")]),
     dict(name='forward flag not cleared (defence in depth only)', edits=[
         (_S, "                msg['fwd'] = False\n", "")]),
+    dict(name='log lines of the proxy->local branch regrouped, guards untouched', edits=[
+        (_S, "                if msg['origin'] == self._module:\n                    if LOG_ENABLED:\n                        self._log.debug_9('XXX >=! fwd %s to topic:%s: %s',\n                                          src, tgt, msg)\n                    return\n\n                if LOG_ENABLED:\n                    self._log.debug_9('XXX >=> fwd %s to topic:%s: %s',\n                                      src, tgt, msg)\n                publisher.put(tgt, msg)\n",
+             "                own = msg['origin'] == self._module\n                if LOG_ENABLED:\n                    if own:\n                        self._log.debug_9('XXX >=! fwd %s to topic:%s: %s',\n                                          src, tgt, msg)\n                    else:\n                        self._log.debug_9('XXX >=> fwd %s to topic:%s: %s',\n                                          src, tgt, msg)\n                if msg['origin'] == self._module:\n                    return\n                publisher.put(tgt, msg)\n")]),
+    dict(name='log switch replaced by a logger level query', edits=[
+        (_S, "                if LOG_ENABLED:\n                    self._log.debug_3('XXX =>> fwd %s to topic:%s: %s',\n                                      src, tgt, msg)\n                publisher.put(tgt, msg)\n",
+             "                if self._log.isEnabledFor(10):\n                    self._log.debug_3('XXX =>> fwd %s to topic:%s: %s',\n                                      src, tgt, msg)\n                publisher.put(tgt, msg)\n")]),
     dict(name='wiring with positional arguments, other order', edits=[
         (_S, "        self.crosswire_pubsub(src=rpc.CONTROL_PUBSUB,\n                              tgt=rpc.PROXY_CONTROL_PUBSUB,\n                              from_proxy=False)\n        self.crosswire_pubsub(src=rpc.PROXY_CONTROL_PUBSUB,\n                              tgt=rpc.CONTROL_PUBSUB,\n                              from_proxy=True)\n",
              "        self.crosswire_pubsub(rpc.PROXY_CONTROL_PUBSUB, rpc.CONTROL_PUBSUB, True)\n        self.crosswire_pubsub(rpc.CONTROL_PUBSUB, rpc.PROXY_CONTROL_PUBSUB,\n                              from_proxy=False)\n")]),
